@@ -2865,3 +2865,30 @@ T("C01", "twin-node-as-list-if-statement", NODE,
   "    return (\n        node.traverse_logic(\"outgoing\")\n        if node.operator is not None\n        else [node]\n    )",
   "    if node.operator is None:\n        return [node]\n    return node.traverse_logic(\"outgoing\")",
   "guard clause instead of the conditional expression")
+
+# ---- R7.22 loop component classification
+CLC = "loop_detection/calculate_loop_components.py"
+M("C07", "break-search-from-all-exits", CLC,
+  "            break_nodes = get_break_nodes_if_end_to_start_exists(\n                end_nodes,",
+  "            break_nodes = get_break_nodes_if_end_to_start_exists(\n                nodes_that_exit_loop,",
+  "R7.22", "exit points computed from every leaving event, not from the end events (seed C07-v)")
+M("C07", "break-candidates-include-ends", CLC,
+  "        break_out_nodes = nodes_that_exit_loop.difference(end_nodes_with_exits)",
+  "        break_out_nodes = nodes_that_exit_loop.union(end_nodes_with_exits)",
+  "R7.22", "end events with exits become break-out candidates")
+M("C07", "exit-points-keep-end-events", CLC,
+  "    exit_points.difference_update(end_nodes)\n",
+  "",
+  "R7.22", "end events count as exit points of other end events")
+M("C07", "loop-edges-to-end", CLC,
+  "    loop_edges = get_loop_edges(start_nodes, end_nodes, graph)",
+  "    loop_edges = get_loop_edges(end_nodes, start_nodes, graph)",
+  "R7.22", "roles of start and end events crossed for the loop-back edges")
+T("C07", "twin-break-candidates-minus-all-ends", CLC,
+  "        break_out_nodes = nodes_that_exit_loop.difference(end_nodes_with_exits)",
+  "        break_out_nodes = nodes_that_exit_loop - end_nodes",
+  "EXIT minus (END and EXIT) = EXIT minus END")
+T("C07", "twin-end-exits-operator", CLC,
+  "        end_nodes_with_exits = end_nodes.intersection(nodes_that_exit_loop)",
+  "        end_nodes_with_exits = nodes_that_exit_loop & end_nodes",
+  "operator spelling, operands swapped")
